@@ -242,11 +242,18 @@ def _ops(alphabet, text_ok, modes, profile="mixed"):
     mixed_burst = st.lists(st.one_of(reads, reads, writes, writes, ops[7][1], seek), min_size=2, max_size=5)
     # revisits: reads and writes interleaved with seeks back to where earlier operations ended
     # (a seek shows only in what the next read returns / where the next write lands: it comes paired with one)
-    revisit = st.tuples(hseek, st.one_of(*(_w(reads, 3) + _w(writes, 1))))
+    # (the read after a revisit is a bounded one: enough to see what is there, without re-reading the whole file each time)
+    short_reads = st.one_of(
+        st.tuples(st.just("read"), st.sampled_from([1, 2, 3, 5, 17, 100, 1024, 3000])),
+        st.tuples(st.just("readline"), st.sampled_from([None, None, 1, 5, 100])),
+        st.tuples(st.just("next")),
+    )
+    revisit = st.tuples(hseek, st.one_of(*(_w(short_reads, 3) + _w(writes, 1))))
+    write_revisit = st.tuples(writes, hseek, short_reads)  # what does a read at a place of the past see after a write
     # half of these bursts start near the beginning of the file (an append-mode handle starts at its end, where reads are empty)
     revisit_burst = st.tuples(
         st.one_of(st.just(None), st.tuples(st.just("seek"), st.integers(0, 12), st.just(0))),
-        st.lists(st.one_of(*(_w(reads, 1) + _w(writes, 1) + _w(revisit, 2))), min_size=2, max_size=5),
+        st.lists(st.one_of(*(_w(reads, 1) + _w(writes, 1) + _w(revisit, 2) + _w(write_revisit, 2))), min_size=2, max_size=5),
     ).map(lambda t: ([t[0]] if t[0] else []) + [o for x in t[1] for o in (x if isinstance(x[0], tuple) else (x,))])
     # read(all)/readlines() leave the position at EOF, where every further read is trivially empty:
     # most of the time they are followed by a seek back into the file
